@@ -10,6 +10,9 @@ interleaving at line granularity with the cache operations atomic (they hold the
                         without MAX_UPDATES_PER_SECOND_ON_SHUTDOWN x MIN_TIMESTAMP_LAG:
                         when writeForever returns the cache is empty and every datapoint stored
                         before the stop is in a drained batch
+ --what limits   (C20)  workloads of 5 / 8 new metrics, create limits of 1 / 2 per minute, update limits
+                        of 1 / 2 per second, with and without a shutdown rate, every placement of the stop:
+                        creates and writes in any window stay within rate x length + 2 x burst
  --what faults   (C03)  the same schedules with every pattern of <= k failing exists / create / write
                         calls: each drained batch is (a) written once, complete, under its own
                         metric, after exists() said yes, and counted, or (b) its failed write is
@@ -77,6 +80,8 @@ class DB(object):
     self.created = set(preexisting)
     self.n = {'exists': 0, 'create': 0, 'write': 0}
     self.log = log
+    self.times = []
+    self.clock = None
 
   def _call(self, kind):
     i = self.n[kind]
@@ -99,6 +104,7 @@ class DB(object):
       raise Boom('create')
     self.created.add(m)
     self.log.append(('create', m, 'ok'))
+    self.times.append(('create', self.clock.now))
 
   def write(self, m, dps):
     dps = list(dps)
@@ -107,6 +113,7 @@ class DB(object):
       self.log.append(('write', m, dps, 'raised'))
       raise Boom('write')
     self.log.append(('write', m, dps, 'ok', m in self.created))
+    self.times.append(('write', self.clock.now))
 
 
 class FakeLog(object):
@@ -163,6 +170,7 @@ def run(cfg, initial, actions, faults):
   W.MetricCache = lambda: cache
   state.cacheTooFull = False
   db = DB(faults, cfg['pre'], log)
+  db.clock = clock
   state.database = db
   W.log = FakeLog(log)
   W.instrumentation = FakeInstr(log)
@@ -226,7 +234,10 @@ def run(cfg, initial, actions, faults):
     return ('no_raise', 'writeForever raised %r' % (e,)), st['step'], log
   finally:
     sys.settrace(None)
-  return judge(cfg, log, stored, cache, faults), st['step'], log
+  r = judge(cfg, log, stored, cache, faults)
+  if r is None and cfg.get('limits'):
+    r = judge_limits(cfg, db.times)
+  return r, st['step'], log
 
 
 def judge(cfg, log, stored, cache, faults):
@@ -322,6 +333,27 @@ def judge(cfg, log, stored, cache, faults):
   return None
 
 
+def judge_limits(cfg, times):
+  """C20 on the writer: creates / writes in any window between two of them stay within
+  rate * length + 2 * burst for the configured limits (after a stop with a shutdown rate configured,
+  the larger of the two limits is allowed)"""
+  for kind, cap, rate in (('create', cfg['creates'], cfg['creates'] / 60.0 if cfg['creates'] else 0),
+                          ('write', cfg['updates'], float(cfg['updates']))):
+    if not cap:
+      continue
+    if cfg['shut'] is not None:
+      cap, rate = max(cap, cfg['shut']), max(rate, float(cfg['shut']))
+    ts = [t for (k, t) in times if k == kind]
+    for i in range(len(ts)):
+      for j in range(i, len(ts)):
+        n = j - i + 1
+        bound = rate * (ts[j] - ts[i]) + 2 * cap
+        if n > bound + 1e-9:
+          return ('limit_exceeded', '%d %ss within %.3f s; the configured limit (burst %r, %r per second) allows %.3f' % (
+            n, kind, ts[j] - ts[i], cap, rate, bound))
+  return None
+
+
 def describe(cfg, initial, actions, faults, log):
   return {'config': cfg, 'initial_stores': [a[1] for a in initial], 'schedule': [[p, list(a)] for (p, a) in actions],
           'failing_backend_calls': sorted(faults), 'events': [list(map(repr, e)) for e in log][-40:]}
@@ -333,6 +365,8 @@ def work(job):
   fails = {}
   full_stop_placement = stop_anywhere
   workloads = [[], [('store', 'a')], [('store', 'a'), ('store', 'b')], [('store', 'a'), ('store', 'a'), ('store', 'b')]]
+  if mode == 'limits':
+    workloads = [[('store', x) for x in 'abcde'], [('store', x) for x in 'abcdefgh']]
   fault_sets = [frozenset()]
   if mode == 'faults':
     calls = [(k, i) for k in ('exists', 'create', 'write') for i in range(3)]
@@ -370,6 +404,11 @@ def work(job):
 
 def configs(mode, thorough):
   out = []
+  if mode == 'limits':
+    for s in (['sorted', 'none', 'bucketmax'] if thorough else ['sorted']):
+      for (creates, updates, shut) in ((1, 0, None), (2, 0, None), (1, 2, None), (0, 2, None), (1, 2, 50), (2, 0, 50), (0, 1, None)):
+        out.append({'strategy': s, 'creates': creates, 'updates': updates, 'shut': shut, 'lag': 0, 'pre': [], 'limits': True})
+    return out
   strategies = ['sorted', 'max', 'naive', 'timesorted', 'bucketmax', 'random', 'none'] if thorough else ['sorted', 'timesorted', 'bucketmax', 'none']
   for s in strategies:
     for (creates, updates, shut) in ((0, 0, None), (1, 0, None), (0, 2, None), (1, 2, 50), (1, 0, 50)):
@@ -385,7 +424,7 @@ def configs(mode, thorough):
 
 def main():
   ap = argparse.ArgumentParser()
-  ap.add_argument('--what', choices=['shutdown', 'faults'], required=True)
+  ap.add_argument('--what', choices=['shutdown', 'faults', 'limits'], required=True)
   ap.add_argument('--inflight', type=int, default=1)
   ap.add_argument('--faults', type=int, default=1)
   ap.add_argument('--thorough', action='store_true')
@@ -393,14 +432,17 @@ def main():
   ap.add_argument('--seed', default='0')
   a = ap.parse_args()
   c04_ids = ('shutdown_leaves_data', 'liveness')
-  jobs = [(cfg, a.what, a.inflight, a.faults, a.extra, a.thorough or a.what == 'shutdown') for cfg in configs(a.what, a.thorough)]
+  jobs = [(cfg, a.what, a.inflight, a.faults, a.extra, a.thorough or a.what in ('shutdown', 'limits')) for cfg in configs(a.what, a.thorough)]
   with multiprocessing.Pool(16) as pool:
     res = pool.map(work, jobs, chunksize=1)
   evals = sum(r[0] for r in res)
   fails = {}
   for r in res:
     for f in r[1]:
-      if (f['id'] in c04_ids) == (a.what == 'shutdown') or f['id'] == 'no_raise':
+      if a.what == 'limits':
+        if f['id'] in ('limit_exceeded', 'no_raise'):
+          fails.setdefault(f['id'], f)
+      elif (f['id'] in c04_ids) == (a.what == 'shutdown') or f['id'] == 'no_raise':
         fails.setdefault(f['id'], f)
   print('BOUNDED-RESULT ' + json.dumps({'evaluations': evals, 'distinct_cases': evals, 'failures': list(fails.values())[:4],
                                         'configurations': len(jobs), 'inflight_stores': a.inflight, 'max_faults': a.faults}, default=str))
